@@ -2,6 +2,7 @@ package main
 
 import (
 	"bytes"
+	"sync/atomic"
 	"context"
 	"fmt"
 	"os"
@@ -39,6 +40,11 @@ type SolveOpts struct {
 }
 
 var solveSem chan struct{}
+
+// failBudget: once this many obligations of a run have failed, the remaining ones are not attempted
+// (the check already has its answer; a broken tree would otherwise cost minutes of solver timeouts).
+var failBudget int64 = 12
+var failCount int64
 
 func runSolver(s solverDef, input string, timeoutMs int) (string, float64, error) {
 	return runSolverCtx(context.Background(), s, input, timeoutMs)
@@ -127,6 +133,15 @@ func solveFunc(key string, vs *VCSet, opts SolveOpts) float64 {
 	single := func(ob *Obligation) {
 		solveSem <- struct{}{}
 		defer func() { <-solveSem }()
+		if !ob.Cover && atomic.LoadInt64(&failCount) >= failBudget {
+			ob.Status, ob.Solver = "not-attempted", "-"
+			return
+		}
+		defer func() {
+			if !ob.Cover && ob.Status != "unsat" && ob.Status != "not-attempted" {
+				atomic.AddInt64(&failCount, 1)
+			}
+		}()
 		want := "unsat"
 		if ob.Cover {
 			want = "sat"
@@ -228,6 +243,13 @@ func solveFunc(key string, vs *VCSet, opts SolveOpts) float64 {
 			defer wg.Done()
 			if len(obs) > 1 {
 				solveSem <- struct{}{}
+				if atomic.LoadInt64(&failCount) >= failBudget {
+					<-solveSem
+					for _, ob := range obs {
+						ob.Status, ob.Solver = "not-attempted", "-"
+					}
+					return
+				}
 				body := smtHeader + vs.queryText(obs) + "(check-sat)\n"
 				r := race(body, opts.TimeoutMs, add)
 				<-solveSem
